@@ -4,6 +4,18 @@ From GP Require Import Bytes Generated Cli.
 From Coq Require Import Lia Arith.
 Local Open Scope nat_scope.
 
+Lemma filter_none {A} (f : A -> bool) l : (forall x, In x l -> f x = false) -> filter f l = [].
+Proof.
+  induction l as [|x l IH]; simpl; intros H; [reflexivity|].
+  rewrite (H x (or_introl eq_refl)). apply IH. intros y Hy. apply H. right. exact Hy.
+Qed.
+
+Lemma filter_all {A} (f : A -> bool) l : (forall x, In x l -> f x = true) -> filter f l = l.
+Proof.
+  induction l as [|x l IH]; simpl; intros H; [reflexivity|].
+  rewrite (H x (or_introl eq_refl)). f_equal. apply IH. intros y Hy. apply H. right. exact Hy.
+Qed.
+
 Section Facts.
   Variable parses : bytes -> option bytes.
   Variable header_of : bytes -> header.
@@ -22,23 +34,121 @@ Section Facts.
   Definition add (r k : result) : result :=
     {| r_events := r_events r ++ r_events k;
        r_errors := r_errors r ++ r_errors k;
-       r_runner_errors := r_runner_errors r ++ r_runner_errors k;
-       r_abort := r_abort k |}.
-
-  Definition readable (t : target) : bool :=
-    match t_read t with inl _ => true | inr _ => false end.
+       r_runner_errors := r_runner_errors r ++ r_runner_errors k |}.
 
   Lemma result_eq r1 r2 :
     r_events r1 = r_events r2 -> r_errors r1 = r_errors r2 ->
-    r_runner_errors r1 = r_runner_errors r2 -> r_abort r1 = r_abort r2 -> r1 = r2.
+    r_runner_errors r1 = r_runner_errors r2 -> r1 = r2.
   Proof. destruct r1, r2; simpl; intros; subst; reflexivity. Qed.
 
-  Lemma step_aborted r it e : r_abort r = Some e -> step r it = r.
-  Proof. intros H. destruct it as [i t]. unfold Cli.step. rewrite H. reflexivity. Qed.
+  (* the final bytes for a formatted result: imports.Process, or the parse
+     check when import processing is skipped *)
+  Definition finalize (fmt : bytes) : bytes + bytes :=
+    if o_skip_imports o
+    then match parses fmt with None => inl fmt | Some m => inr m end
+    else process fmt.
 
-  Lemma step_add r i t : r_abort r = None -> step r (i, t) = add r (solo i t).
+  (* [solo], case by case *)
+  Lemma solo_unreadable i t m : t_read t = inr m ->
+    solo i t = {| r_events := []; r_errors := [ErrRead (t_abs t) m]; r_runner_errors := [] |}.
+  Proof. intros H. unfold solo, Cli.step. rewrite H. reflexivity. Qed.
+
+  Lemma solo_unparseable i t c m : t_read t = inl c -> parses c = Some m ->
+    solo i t = {| r_events := []; r_errors := [ErrParse (t_abs t) m]; r_runner_errors := [] |}.
+  Proof. intros H1 H2. unfold solo, Cli.step. rewrite H1, H2. reflexivity. Qed.
+
+  Lemma solo_generated i t c : t_read t = inl c -> parses c = None ->
+    o_skip_generated o && check_generated_code (header_of c) = true ->
+    solo i t = {| r_events := [EvLog i (t_abs t) LGenSkipped]; r_errors := []; r_runner_errors := [] |}.
+  Proof. intros H1 H2 H3. unfold solo, Cli.step. rewrite H1, H2, H3. reflexivity. Qed.
+
+  Definition echo (i : nat) (c : bytes) : list event :=
+    if o_print o then [EvOut i true c] else [].
+
+  Lemma solo_nomatch i t c : t_read t = inl c -> parses c = None ->
+    o_skip_generated o && check_generated_code (header_of c) = false ->
+    engine c = NoMatch ->
+    solo i t = {| r_events := echo i c ++ [EvLog i (t_abs t) LSkipped];
+                  r_errors := []; r_runner_errors := [] |}.
+  Proof. intros H1 H2 H3 H4. unfold solo, Cli.step. rewrite H1, H2, H3, H4. reflexivity. Qed.
+
+  Lemma solo_replace_err i t c m : t_read t = inl c -> parses c = None ->
+    o_skip_generated o && check_generated_code (header_of c) = false ->
+    engine c = ReplaceErr m ->
+    solo i t = {| r_events := echo i c ++ [EvLog i (t_abs t) LSkipped];
+                  r_errors := []; r_runner_errors := [ErrUpdate (t_abs t) m] |}.
+  Proof. intros H1 H2 H3 H4. unfold solo, Cli.step. rewrite H1, H2, H3, H4. reflexivity. Qed.
+
+  Lemma solo_format_err i t c cs m : t_read t = inl c -> parses c = None ->
+    o_skip_generated o && check_generated_code (header_of c) = false ->
+    engine c = Matched cs (inr m) ->
+    solo i t = {| r_events := [EvLog i (t_abs t) (LFailed m)];
+                  r_errors := [ErrRewrite (t_abs t) m]; r_runner_errors := [] |}.
+  Proof. intros H1 H2 H3 H4. unfold solo, Cli.step. rewrite H1, H2, H3, H4. reflexivity. Qed.
+
+  Lemma solo_reformat_err i t c cs fmt m : t_read t = inl c -> parses c = None ->
+    o_skip_generated o && check_generated_code (header_of c) = false ->
+    engine c = Matched cs (inl fmt) -> finalize fmt = inr m ->
+    solo i t = {| r_events := []; r_errors := [ErrReformat (t_abs t) m]; r_runner_errors := [] |}.
   Proof.
-    intros H. unfold solo, Cli.step. rewrite H. simpl.
+    intros H1 H2 H3 H4 H5. unfold solo, Cli.step. rewrite H1, H2, H3, H4.
+    unfold finalize in H5. rewrite H5. reflexivity.
+  Qed.
+
+  Lemma solo_sunk i t c cs fmt bs : t_read t = inl c -> parses c = None ->
+    o_skip_generated o && check_generated_code (header_of c) = false ->
+    engine c = Matched cs (inl fmt) -> finalize fmt = inl bs ->
+    solo i t =
+      match sink i t c bs cs with
+      | (evs, Some m) => {| r_events := evs ++ [EvLog i (t_abs t) (LFailed m)];
+                            r_errors := [ErrWrite (t_abs t) m]; r_runner_errors := [] |}
+      | (evs, None) => {| r_events := evs ++ [EvLog i (t_abs t) LPatched];
+                          r_errors := []; r_runner_errors := [] |}
+      end.
+  Proof.
+    intros H1 H2 H3 H4 H5. unfold solo, Cli.step. rewrite H1, H2, H3, H4.
+    unfold finalize in H5. rewrite H5.
+    destruct (Cli.sink o i t c bs cs) as [evs [m|]]; reflexivity.
+  Qed.
+
+  (* case analysis principle: every file falls in exactly one of the cases above *)
+  Inductive file_case (t : target) : Prop :=
+  | FUnreadable m : t_read t = inr m -> file_case t
+  | FUnparseable c m : t_read t = inl c -> parses c = Some m -> file_case t
+  | FGenerated c : t_read t = inl c -> parses c = None ->
+      o_skip_generated o && check_generated_code (header_of c) = true -> file_case t
+  | FNoMatch c : t_read t = inl c -> parses c = None ->
+      o_skip_generated o && check_generated_code (header_of c) = false ->
+      engine c = NoMatch -> file_case t
+  | FReplaceErr c m : t_read t = inl c -> parses c = None ->
+      o_skip_generated o && check_generated_code (header_of c) = false ->
+      engine c = ReplaceErr m -> file_case t
+  | FFormatErr c cs m : t_read t = inl c -> parses c = None ->
+      o_skip_generated o && check_generated_code (header_of c) = false ->
+      engine c = Matched cs (inr m) -> file_case t
+  | FReformatErr c cs fmt m : t_read t = inl c -> parses c = None ->
+      o_skip_generated o && check_generated_code (header_of c) = false ->
+      engine c = Matched cs (inl fmt) -> finalize fmt = inr m -> file_case t
+  | FSunk c cs fmt bs : t_read t = inl c -> parses c = None ->
+      o_skip_generated o && check_generated_code (header_of c) = false ->
+      engine c = Matched cs (inl fmt) -> finalize fmt = inl bs -> file_case t.
+
+  Lemma file_cases t : file_case t.
+  Proof.
+    destruct (t_read t) as [c|m] eqn:H1; [|eapply FUnreadable; eauto].
+    destruct (parses c) as [m|] eqn:H2; [eapply FUnparseable; eauto|].
+    destruct (o_skip_generated o && check_generated_code (header_of c)) eqn:H3;
+      [eapply FGenerated; eauto|].
+    destruct (engine c) as [|m|cs [fmt|m]] eqn:H4.
+    - eapply FNoMatch; eauto.
+    - eapply FReplaceErr; eauto.
+    - destruct (finalize fmt) as [bs|m] eqn:H5; [eapply FSunk | eapply FReformatErr]; eauto.
+    - eapply FFormatErr; eauto.
+  Qed.
+
+  Lemma step_add r i t : step r (i, t) = add r (solo i t).
+  Proof.
+    unfold solo, Cli.step.
     destruct (t_read t) as [content|m].
     2:{ apply result_eq; simpl; rewrite ?app_nil_r; auto. }
     destruct (parses content).
@@ -51,18 +161,6 @@ Section Facts.
     2:{ apply result_eq; simpl; rewrite ?app_nil_r; auto. }
     destruct (Cli.sink o i t content bs cs) as [evs [m|]];
       apply result_eq; simpl; rewrite ?app_nil_r; auto.
-  Qed.
-
-  Lemma solo_abort i t : r_abort (solo i t) = None <-> readable t = true.
-  Proof.
-    unfold solo, Cli.step, readable. simpl.
-    destruct (t_read t) as [content|m]; simpl; [|split; discriminate].
-    split; [reflexivity|intros _].
-    destruct (parses content); [reflexivity|].
-    destruct (o_skip_generated o && _); [reflexivity|].
-    destruct (engine content) as [|m|cs [fmt|m]]; try reflexivity.
-    destruct (if o_skip_imports o then _ else _) as [bs|m]; [|reflexivity].
-    destruct (Cli.sink o i t content bs cs) as [evs [m|]]; reflexivity.
   Qed.
 
   Lemma sink_tag i t content bs cs e :
@@ -81,174 +179,151 @@ Section Facts.
   (* every event of a file's contribution carries that file's index *)
   Lemma solo_tag i t e : In e (r_events (solo i t)) -> ev_index e = i.
   Proof.
-    unfold solo, Cli.step. simpl.
-    destruct (t_read t) as [content|m]; simpl; [|tauto].
-    destruct (parses content); simpl; [tauto|].
-    destruct (o_skip_generated o && _); simpl; [intros [<-|[]]; reflexivity|].
-    destruct (engine content) as [|m|cs [fmt|m]]; simpl.
-    1-2: destruct (o_print o); simpl; intros H;
-         repeat (destruct H as [<-|H]; [reflexivity|]); destruct H.
-    2: intros [<-|[]]; reflexivity.
-    destruct (if o_skip_imports o then _ else _) as [bs|m]; simpl; [|tauto].
-    pose proof (sink_tag i t content bs cs) as Hs.
-    destruct (Cli.sink o i t content bs cs) as [evs [m|]]; simpl in *;
-      rewrite in_app_iff; simpl; intros [H|[<-|[]]]; auto.
+    destruct (file_cases t) as [m H1|c m H1 H2|c H1 H2 H3|c H1 H2 H3 H4|c m H1 H2 H3 H4
+                               |c cs m H1 H2 H3 H4|c cs fmt m H1 H2 H3 H4 H5|c cs fmt bs H1 H2 H3 H4 H5].
+    - rewrite (solo_unreadable _ _ _ H1). simpl. tauto.
+    - rewrite (solo_unparseable _ _ _ _ H1 H2). simpl. tauto.
+    - rewrite (solo_generated _ _ _ H1 H2 H3). simpl. intros [<-|[]]. reflexivity.
+    - rewrite (solo_nomatch _ _ _ H1 H2 H3 H4). unfold echo. simpl.
+      destruct (o_print o); simpl; intros H; repeat (destruct H as [<-|H]; [reflexivity|]); destruct H.
+    - rewrite (solo_replace_err _ _ _ _ H1 H2 H3 H4). unfold echo. simpl.
+      destruct (o_print o); simpl; intros H; repeat (destruct H as [<-|H]; [reflexivity|]); destruct H.
+    - rewrite (solo_format_err _ _ _ _ _ H1 H2 H3 H4). simpl. intros [<-|[]]. reflexivity.
+    - rewrite (solo_reformat_err _ _ _ _ _ _ H1 H2 H3 H4 H5). simpl. tauto.
+    - rewrite (solo_sunk _ _ _ _ _ _ H1 H2 H3 H4 H5).
+      pose proof (sink_tag i t c bs cs) as Hs.
+      destruct (Cli.sink o i t c bs cs) as [evs [m|]]; simpl in *;
+        rewrite in_app_iff; simpl; intros [H|[<-|[]]]; auto.
   Qed.
 
-  (* contributions of the files [n, n+1, ...] until the first unreadable one *)
+  (* contributions of the files numbered [n, n+1, ...] *)
   Fixpoint contribs (n : nat) (ts : list target) : result :=
     match ts with
     | [] => st0
-    | t :: ts' => if readable t then add (solo n t) (contribs (S n) ts')
-                  else solo n t
+    | t :: ts' => add (solo n t) (contribs (S n) ts')
     end.
 
   Lemma add_assoc a b c : add (add a b) c = add a (add b c).
   Proof. apply result_eq; simpl; rewrite ?app_assoc; reflexivity. Qed.
 
-  Lemma add_st0_r r : r_abort r = None -> add r st0 = r.
-  Proof. intros H. apply result_eq; simpl; rewrite ?app_nil_r; auto. Qed.
+  Lemma add_st0_r r : add r st0 = r.
+  Proof. apply result_eq; simpl; rewrite ?app_nil_r; auto. Qed.
+
+  Lemma add_st0_l r : add st0 r = r.
+  Proof. apply result_eq; reflexivity. Qed.
 
   Lemma run_from_cons r n t ts : run_from r n (t :: ts) = run_from (step r (n, t)) (S n) ts.
   Proof. reflexivity. Qed.
 
-  Lemma run_from_aborted r n ts e : r_abort r = Some e -> run_from r n ts = r.
+  Lemma run_from_contribs r n ts : run_from r n ts = add r (contribs n ts).
   Proof.
-    revert r n; induction ts as [|t ts IH]; intros r n H; [reflexivity|].
-    rewrite run_from_cons, (step_aborted _ _ _ H). apply IH; exact H.
+    revert r n; induction ts as [|t ts IH]; intros r n.
+    - simpl. symmetry. apply add_st0_r.
+    - rewrite run_from_cons, step_add, IH. simpl. apply add_assoc.
   Qed.
 
-  Lemma run_from_contribs r n ts :
-    r_abort r = None -> run_from r n ts = add r (contribs n ts).
-  Proof.
-    revert r n; induction ts as [|t ts IH]; intros r n H.
-    - simpl. symmetry. apply add_st0_r. exact H.
-    - rewrite run_from_cons, (step_add _ _ _ H). simpl. destruct (readable t) eqn:R.
-      + rewrite IH; [apply add_assoc|]. simpl. apply solo_abort. exact R.
-      + destruct (r_abort (solo n t)) as [e|] eqn:A.
-        * eapply run_from_aborted. simpl. exact A.
-        * apply solo_abort in A. congruence.
-  Qed.
-
+  (* a run is the concatenation of its files' own contributions *)
   Lemma run_contribs ts : run ts = contribs 0 ts.
-  Proof.
-    unfold Cli.run. rewrite run_from_contribs by reflexivity.
-    apply result_eq; reflexivity.
-  Qed.
+  Proof. unfold Cli.run. rewrite run_from_contribs. apply add_st0_l. Qed.
 
   Lemma contribs_tag n ts e : In e (r_events (contribs n ts)) -> n <= ev_index e.
   Proof.
     revert n; induction ts as [|t ts IH]; intros n; simpl; [tauto|].
-    destruct (readable t); simpl.
-    - rewrite in_app_iff. intros [H|H].
-      + apply solo_tag in H. lia.
-      + apply IH in H. lia.
-    - intros H. apply solo_tag in H. lia.
+    rewrite in_app_iff. intros [H|H].
+    - apply solo_tag in H. lia.
+    - apply IH in H. lia.
   Qed.
 
-  Lemma filter_none {A} (f : A -> bool) l : (forall x, In x l -> f x = false) -> filter f l = [].
-  Proof.
-    induction l as [|x l IH]; simpl; intros H; [reflexivity|].
-    rewrite (H x (or_introl eq_refl)). apply IH. intros y Hy. apply H. right. exact Hy.
-  Qed.
-
-  Lemma filter_all {A} (f : A -> bool) l : (forall x, In x l -> f x = true) -> filter f l = l.
-  Proof.
-    induction l as [|x l IH]; simpl; intros H; [reflexivity|].
-    rewrite (H x (or_introl eq_refl)). f_equal. apply IH. intros y Hy. apply H. right. exact Hy.
-  Qed.
-
-  (* The events a run produces for its i-th file are exactly that file's own
-     contribution, provided the loop gets that far. *)
   Lemma contribs_events_of n ts i t :
     nth_error ts i = Some t ->
-    forallb readable (firstn i ts) = true ->
     filter (fun e => Nat.eqb (ev_index e) (n + i)) (r_events (contribs n ts))
     = r_events (solo (n + i) t).
   Proof.
-    revert n i; induction ts as [|x ts IH]; intros n i Hn Hr; [destruct i; discriminate|].
+    revert n i; induction ts as [|x ts IH]; intros n i Hn; [destruct i; discriminate|].
     destruct i as [|i]; simpl in *.
     - inversion Hn; subst x. rewrite Nat.add_0_r.
-      destruct (readable t); simpl.
-      + rewrite filter_app, filter_all, filter_none, app_nil_r; [reflexivity| |].
-        * intros e He. apply contribs_tag in He. apply Nat.eqb_neq. lia.
-        * intros e He. apply solo_tag in He. apply Nat.eqb_eq. exact He.
-      + apply filter_all. intros e He. apply solo_tag in He. apply Nat.eqb_eq. exact He.
-    - apply andb_true_iff in Hr as [Hx Hr]. rewrite Hx. simpl.
-      rewrite filter_app, filter_none, app_nil_l.
+      rewrite filter_app, filter_all, filter_none, app_nil_r; [reflexivity| |].
+      + intros e He. apply contribs_tag in He. apply Nat.eqb_neq. lia.
+      + intros e He. apply solo_tag in He. apply Nat.eqb_eq. exact He.
+    - rewrite filter_app, filter_none, app_nil_l.
       + replace (n + S i) with (S n + i) by lia. apply IH; assumption.
       + intros e He. apply solo_tag in He. apply Nat.eqb_neq. lia.
   Qed.
 
+  (* The events a run produces for its i-th file are exactly that file's own
+     contribution: they do not depend on the other files of the run. *)
   Theorem run_events_of ts i t :
-    nth_error ts i = Some t ->
-    forallb readable (firstn i ts) = true ->
-    events_of i (run ts) = r_events (solo i t).
+    nth_error ts i = Some t -> events_of i (run ts) = r_events (solo i t).
   Proof.
-    intros Hn Hr. unfold events_of. rewrite run_contribs.
-    apply (contribs_events_of 0 ts i t Hn Hr).
+    intros Hn. unfold events_of. rewrite run_contribs. apply (contribs_events_of 0 ts i t Hn).
   Qed.
 
-  (* a file after an unreadable one is not processed at all *)
-  Lemma contribs_cut n ts i :
-    forallb readable (firstn i ts) = false ->
-    forall e, In e (r_events (contribs n ts)) -> ev_index e < n + i.
-  Proof.
-    revert n i; induction ts as [|x ts IH]; intros n i Hr e He.
-    - destruct i; simpl in *; try discriminate; tauto.
-    - destruct i as [|i]; [discriminate|]. simpl in *.
-      destruct (readable x) eqn:R; simpl in *.
-      + rewrite in_app_iff in He. destruct He as [He|He].
-        * apply solo_tag in He. lia.
-        * apply (IH (S n) i Hr) in He. lia.
-      + apply solo_tag in He. lia.
-  Qed.
-
-  Theorem run_events_after_abort ts i :
-    forallb readable (firstn i ts) = false -> events_of i (run ts) = [].
-  Proof.
-    intros Hr. unfold events_of. rewrite run_contribs. apply filter_none.
-    intros e He. apply (contribs_cut 0 ts i Hr) in He. apply Nat.eqb_neq. lia.
-  Qed.
-
-  (* all events of a run come from some file's contribution *)
   Lemma contribs_events_in n ts e :
-    In e (r_events (contribs n ts)) ->
+    In e (r_events (contribs n ts)) <->
     exists i t, nth_error ts i = Some t /\ In e (r_events (solo (n + i) t)).
   Proof.
-    revert n; induction ts as [|x ts IH]; intros n; simpl; [tauto|].
-    destruct (readable x); simpl.
-    - rewrite in_app_iff. intros [H|H].
-      + exists 0, x. rewrite Nat.add_0_r. auto.
-      + apply IH in H as [i [t [H1 H2]]]. exists (S i), t. split; [exact H1|].
-        replace (n + S i) with (S n + i) by lia. exact H2.
-    - intros H. exists 0, x. rewrite Nat.add_0_r. auto.
+    revert n; induction ts as [|x ts IH]; intros n; simpl.
+    - split; [tauto|]. intros [i [t [H _]]]. destruct i; discriminate.
+    - rewrite in_app_iff, IH. split.
+      + intros [H|[i [t [H1 H2]]]].
+        * exists 0, x. rewrite Nat.add_0_r. auto.
+        * exists (S i), t. split; [exact H1|].
+          replace (n + S i) with (S n + i) by lia. exact H2.
+      + intros [[|i] [t [H1 H2]]]; simpl in H1.
+        * inversion H1; subst. rewrite Nat.add_0_r in H2. auto.
+        * right. exists i, t. split; [exact H1|].
+          replace (S n + i) with (n + S i) by lia. exact H2.
   Qed.
 
   Theorem run_events_in ts e :
-    In e (r_events (run ts)) ->
+    In e (r_events (run ts)) <->
     exists i t, nth_error ts i = Some t /\ In e (r_events (solo i t)).
   Proof. rewrite run_contribs. apply contribs_events_in. Qed.
 
+  Lemma all_errors_add a b e :
+    In e (all_errors (add a b)) <-> In e (all_errors a) \/ In e (all_errors b).
+  Proof. unfold all_errors. simpl. rewrite !in_app_iff. tauto. Qed.
+
   Lemma contribs_errors_in n ts e :
-    In e (all_errors (contribs n ts)) ->
+    In e (all_errors (contribs n ts)) <->
     exists i t, nth_error ts i = Some t /\ In e (all_errors (solo (n + i) t)).
   Proof.
-    revert n; induction ts as [|x ts IH]; intros n; simpl; [tauto|].
-    destruct (readable x) eqn:R; simpl.
-    - pose proof (proj2 (solo_abort n x) R) as A.
-      unfold all_errors at 1. simpl.
-      destruct (r_abort (contribs (S n) ts)) as [a|] eqn:A2.
-      + intros [<-|[]].
-        destruct (IH (S n)) as [i [t [H1 H2]]]; [unfold all_errors; rewrite A2; left; reflexivity|].
-        exists (S i), t. split; [exact H1|].
-        replace (n + S i) with (S n + i) by lia. exact H2.
-      + rewrite !in_app_iff. intros H.
-        assert (In e (all_errors (solo n x)) \/ In e (all_errors (contribs (S n) ts))) as [H'|H'].
-        { unfold all_errors. rewrite A, A2, !in_app_iff. tauto. }
+    revert n; induction ts as [|x ts IH]; intros n; simpl.
+    - split; [intros []|]. intros [i [t [H _]]]. destruct i; discriminate.
+    - rewrite all_errors_add, IH. split.
+      + intros [H|[i [t [H1 H2]]]].
         * exists 0, x. rewrite Nat.add_0_r. auto.
-        * apply IH in H' as [i [t [H1 H2]]]. exists (S i), t. split; [exact H1|].
+        * exists (S i), t. split; [exact H1|].
           replace (n + S i) with (S n + i) by lia. exact H2.
-    - intros H. exists 0, x. rewrite Nat.add_0_r. auto.
+      + intros [[|i] [t [H1 H2]]]; simpl in H1.
+        * inversion H1; subst. rewrite Nat.add_0_r in H2. auto.
+        * right. exists i, t. split; [exact H1|].
+          replace (S n + i) with (n + S i) by lia. exact H2.
   Qed.
+
+  (* the errors of a run are exactly the errors of its files *)
+  Theorem run_errors_in ts e :
+    In e (all_errors (run ts)) <->
+    exists i t, nth_error ts i = Some t /\ In e (all_errors (solo i t)).
+  Proof. rewrite run_contribs. apply contribs_errors_in. Qed.
+
+  (* a file's errors do not depend on its index *)
+  Lemma solo_errors_index i j t : all_errors (solo i t) = all_errors (solo j t).
+  Proof.
+    unfold all_errors.
+    destruct (file_cases t) as [m H1|c m H1 H2|c H1 H2 H3|c H1 H2 H3 H4|c m H1 H2 H3 H4
+                               |c cs m H1 H2 H3 H4|c cs fmt m H1 H2 H3 H4 H5|c cs fmt bs H1 H2 H3 H4 H5].
+    - rewrite !(solo_unreadable _ _ _ H1). auto.
+    - rewrite !(solo_unparseable _ _ _ _ H1 H2). auto.
+    - rewrite !(solo_generated _ _ _ H1 H2 H3). auto.
+    - rewrite !(solo_nomatch _ _ _ H1 H2 H3 H4). auto.
+    - rewrite !(solo_replace_err _ _ _ _ H1 H2 H3 H4). auto.
+    - rewrite !(solo_format_err _ _ _ _ _ H1 H2 H3 H4). auto.
+    - rewrite !(solo_reformat_err _ _ _ _ _ _ H1 H2 H3 H4 H5). auto.
+    - rewrite !(solo_sunk _ _ _ _ _ _ H1 H2 H3 H4 H5). unfold Cli.sink.
+      destruct (o_diff o); [|destruct (o_print o); [|destruct (t_write_err t)]]; simpl; auto.
+  Qed.
+
+  Lemma exit_status_zero r : exit_status r = 0%N <-> all_errors r = [].
+  Proof. unfold exit_status. destruct (all_errors r); split; intro H; auto; discriminate. Qed.
 End Facts.
